@@ -178,7 +178,11 @@ explore(size_t size)
                 mc_log_hex("out", dst, o->len);
                 if (rest == 0) {
                     outcome = "atmost-empty";
-                    if (rc >= 0) {
+                    /* "failing only when none are": a request for zero octets
+                     * on an empty buffer may fail or deliver its zero octets --
+                     * the statement does not decide it; the state comparison
+                     * below demands "nothing changed" either way */
+                    if (o->len == 0 ? rc > 0 : rc >= 0) {
                         mc_fail("C18/atmost-fails-only-on-empty", "consume_at_most(%zu) on an empty buffer returned %zd", o->len, rc);
                         ok = false;
                     }
